@@ -102,7 +102,7 @@ func (x *explorer) searchVis(cfg visCfg) *devResult {
 	}
 	check := func(s *vState) {
 		var fins []string
-		first := ""
+		var first *lState
 		for _, i := range x.correct {
 			st := x.states[i][s.L[i]]
 			if st.panicked != "" {
@@ -115,14 +115,14 @@ func (x *explorer) searchVis(cfg visCfg) *devResult {
 				report("sent-before-durable", fmt.Sprintf("correct validator V%d: %s", i, st.notDur))
 			}
 			if st.fin != "" {
-				fins = append(fins, fmt.Sprintf("V%d=%s@r%d", i, x.mt.blockName(unhex(st.fin)), st.finRound))
+				fins = append(fins, x.finDesc(i, st))
 				if !st.finOK {
-					report("finalize-without-quorum", fmt.Sprintf("node V%d finalized %s in round %d but the independent recount of its precommits fails: %s", i, st.fin, st.finRound, st.finWhy))
+					report("finalize-without-quorum", fmt.Sprintf("node V%d finalized %s but the independent recount of its precommits fails: %s", i, x.finDesc(i, st), st.finWhy))
 				}
-				if first == "" {
-					first = st.fin
-				} else if first != st.fin {
-					report("disagreement", fmt.Sprintf("two correct validators finalized different blocks at height 1: %v", fins))
+				if first == nil {
+					first = st
+				} else if h := finConflict(first, st); h > 0 {
+					report("disagreement", fmt.Sprintf("two correct validators finalized different blocks at height %d: %v", h, fins))
 				}
 			}
 		}
